@@ -19,6 +19,8 @@ func main() {
 	pat := flag.String("run", ".", "harness name regexp")
 	pkgs := flag.String("pkgs", "", "comma-separated package patterns (default: all harness packages)")
 	solver := flag.String("solver", "z3", "incremental solver")
+	capS := flag.Int("cap", 120, "wall-clock cap per harness (s)")
+	thorough := flag.Bool("thorough", false, "thorough tier bounds")
 	flag.Parse()
 	var patterns []string
 	if *pkgs != "" {
@@ -40,7 +42,7 @@ func main() {
 	}
 	sort.Strings(names)
 	for _, n := range names {
-		e := sym.NewEngine(ld, sym.Config{Solver: *solver})
+		e := sym.NewEngine(ld, sym.Config{Solver: *solver, Deadline: time.Now().Add(time.Duration(*capS) * time.Second), Thorough: *thorough})
 		r := e.Explore(ld.Harnesses[n])
 		fmt.Printf("== %s: paths=%d pruned=%d steps=%d queries=%d solver=%v wall=%v\n", n, r.Paths, r.PathsPruned, r.Steps, r.Queries, r.SolverTime.Round(time.Millisecond), r.Wall.Round(time.Millisecond))
 		var keys []string
